@@ -47,8 +47,12 @@ def event_builder_EventBuilder_Build : List String := [
   "eventStruct.Origin = origin",
   "switch eventFormat {",
   "case EventFormatV1:",
-  "eventStruct.PrevEvents = toEventReference(eventStruct.PrevEvents)",
-  "eventStruct.AuthEvents = toEventReference(eventStruct.AuthEvents)",
+  "if eventStruct.PrevEvents, err = eventReferencesFrom(eventStruct.PrevEvents); err != nil {",
+  "return nil, fmt.Errorf(\"EventBuilder.Build: prev_events: %w\", err)",
+  "}",
+  "if eventStruct.AuthEvents, err = eventReferencesFrom(eventStruct.AuthEvents); err != nil {",
+  "return nil, fmt.Errorf(\"EventBuilder.Build: auth_events: %w\", err)",
+  "}",
   "case EventFormatV2:",
   "switch prevEvents := eventStruct.PrevEvents.(type) { case []string: eventStruct.PrevEvents = prevEvents case nil: eventStruct.PrevEvents = []string{} }",
   "switch authEvents := eventStruct.AuthEvents.(type) { case []string: eventStruct.AuthEvents = authEvents case nil: eventStruct.AuthEvents = []string{} }",
@@ -74,6 +78,9 @@ def event_builder_EventBuilder_Build : List String := [
   "if eventJSON, err = EnforcedCanonicalJSON(eventJSON, eb.version.Version()); err != nil {",
   "return",
   "}",
+  "if err = checkUntrustedEventJSON(eventJSON); err != nil {",
+  "return nil, err",
+  "}",
   "res, err := eb.version.NewEventFromTrustedJSON(eventJSON, false)",
   "if err != nil {",
   "return nil, err",
@@ -97,15 +104,35 @@ def event_builder_EventBuilder_SetUnsigned : List String := [
 def event_builder__eventHashFromEventID : List String := [
   "func func(eventID string) spec.Base64Bytes",
   "var sha spec.Base64Bytes",
+  "if len(eventID) == 0 {",
+  "return sha",
+  "}",
   "if err := sha.Decode(eventID[1:]); err != nil {",
   "return sha",
   "}",
   "return sha"
 ]
 
+def event_builder__eventReferenceFromEventID : List String := [
+  "func func(eventID string) (eventReference, error)",
+  "if len(eventID) == 0 || eventID[0] != '$' {",
+  "return eventReference{}, fmt.Errorf(\"gomatrixserverlib: invalid event ID %q\", eventID)",
+  "}",
+  "return eventReference{EventID: eventID, EventSHA256: eventHashFromEventID(eventID)}, nil"
+]
+
+def event_builder__eventReferencesFrom : List String := [
+  "func func(data any) ([]eventReference, error)",
+  "switch evs := data.(type) { case nil: return []eventReference{}, nil case []string: newEvents := make([]eventReference, 0, len(evs)) for _, eventID := range evs { ref, err := eventReferenceFromEventID(eventID) if err != nil { return nil, err } newEvents = append(newEvents, ref) } return newEvents, nil case []eventReference: return evs, nil case []interface{}: evRefs := make([]eventReference, 0, len(evs)) for _, b := range evs { evID, ok := b.(string) if !ok { ev, isList := b.([]interface{}) if !isList { continue } if len(ev) == 0 { return nil, fmt.Errorf(\"gomatrixserverlib: empty event reference\") } if evID, ok = ev[0].(string); !ok { return nil, fmt.Errorf(\"gomatrixserverlib: event reference must start with an event ID, got %T\", ev[0]) } } ref, err := eventReferenceFromEventID(evID) if err != nil { return nil, err } evRefs = append(evRefs, ref) } return evRefs, nil default: return []eventReference{}, nil }"
+]
+
 def event_builder__toEventReference : List String := [
   "func func(data any) []eventReference",
-  "switch evs := data.(type) { case nil: return []eventReference{} case []string: newEvents := make([]eventReference, 0, len(evs)) for _, eventID := range evs { newEvents = append(newEvents, eventReference{EventID: eventID, EventSHA256: eventHashFromEventID(eventID)}) } return newEvents case []eventReference: return evs case []interface{}: evRefs := make([]eventReference, 0, len(evs)) for _, b := range evs { evID, ok := b.(string) if ok { evRefs = append(evRefs, eventReference{EventID: evID, EventSHA256: eventHashFromEventID(evID)}) continue } ev, ok := b.([]interface{}) if ok { evRefs = append(evRefs, eventReference{EventID: ev[0].(string), EventSHA256: eventHashFromEventID(ev[0].(string))}) continue } } return evRefs default: return []eventReference{} }"
+  "refs, err := eventReferencesFrom(data)",
+  "if err != nil {",
+  "return []eventReference{}",
+  "}",
+  "return refs"
 ]
 
 def eventauth_AuthEvents_AddEvent : List String := [
@@ -393,7 +420,7 @@ def eventauth__checkPowerLevelEventV2 : List String := [
 def eventauth__checkPowerLevelEventV3 : List String := [
   "func func(sender string, createEvent PDU, oldPowerLevels, newPowerLevels PowerLevelContent) error",
   "var content CreateContent",
-  "if err := json.Unmarshal(createEvent.Content(), &content); err != nil {",
+  "if err := json.Unmarshal(exactMembersOnly(createEvent.Content(), &content), &content); err != nil {",
   "return errorf(\"checkPowerLevelEventV3 unparseable create event content: %s\", err.Error())",
   "}",
   "creators := []string{string(createEvent.SenderID())}",
@@ -479,6 +506,9 @@ def eventauth_allowerContext_aliasEventAllowed : List String := [
   "if err != nil {",
   "return err",
   "}",
+  "if sender == nil {",
+  "return errorf(\"userID not found for sender %q in room %q\", event.SenderID(), event.RoomID().String())",
+  "}",
   "if event.RoomID().String() != a.create.roomID {",
   "return errorf(\"create event has different roomID: %q (%s) != %q (%s)\", event.RoomID().String(), event.EventID(), a.create.roomID, a.create.eventID)",
   "}",
@@ -538,6 +568,9 @@ def eventauth_allowerContext_createEventAllowed : List String := [
   "sender, err := a.userIDQuerier(a.roomID, event.SenderID())",
   "if err != nil {",
   "return err",
+  "}",
+  "if sender == nil {",
+  "return errorf(\"userID not found for sender %q in room %q\", event.SenderID(), event.RoomID().String())",
   "}",
   "verImpl, err := GetRoomVersion(event.Version())",
   "if err != nil {",
@@ -1089,7 +1122,7 @@ def eventcontent__CreatorsFromCreateEvent : List String := [
   "func func(createEvent PDU) (creators []string)",
   "creators = append(creators, string(createEvent.SenderID()))",
   "var content CreateContent",
-  "err := json.Unmarshal(createEvent.Content(), &content)",
+  "err := json.Unmarshal(exactMembersOnly(createEvent.Content(), &content), &content)",
   "if err != nil {",
   "panic(\"invalid create event content: \" + string(createEvent.JSON()))",
   "}",
@@ -1107,7 +1140,7 @@ def eventcontent__NewCreateContentFromAuthEvents : List String := [
   "err = errorf(\"missing create event\")",
   "return",
   "}",
-  "if err = json.Unmarshal(createEvent.Content(), &c); err != nil {",
+  "if err = json.Unmarshal(exactMembersOnly(createEvent.Content(), &c), &c); err != nil {",
   "err = errorf(\"unparseable create event content: %s\", err.Error())",
   "return",
   "}",
@@ -1136,7 +1169,7 @@ def eventcontent__NewJoinRuleContentFromAuthEvents : List String := [
   "if joinRulesEvent == nil {",
   "return",
   "}",
-  "if err = json.Unmarshal(joinRulesEvent.Content(), &c); err != nil {",
+  "if err = json.Unmarshal(exactMembersOnly(joinRulesEvent.Content(), &c), &c); err != nil {",
   "err = errorf(\"unparseable join_rules event content: %s\", err.Error())",
   "return",
   "}",
@@ -1216,7 +1249,7 @@ def eventcontent__NewThirdPartyInviteContentFromAuthEvents : List String := [
   "err = errorf(\"Couldn't find third party invite event\")",
   "return",
   "}",
-  "if err = json.Unmarshal(thirdPartyInviteEvent.Content(), &t); err != nil {",
+  "if err = json.Unmarshal(exactMembersOnly(thirdPartyInviteEvent.Content(), &t), &t); err != nil {",
   "err = errorf(\"unparseable third party invite event content: %s\", err.Error())",
   "}",
   "return"
@@ -1228,7 +1261,7 @@ def eventcontent__checkCreateEventV1 : List String := [
   "return errorf(\"create event room ID domain does not match sender: %q != %q\", event.RoomID().Domain(), sender.String())",
   "}",
   "c := struct { Creator *string `json:\"creator\"` RoomVersion *RoomVersion `json:\"room_version\"` }{}",
-  "if err := json.Unmarshal(event.Content(), &c); err != nil {",
+  "if err := json.Unmarshal(exactMembersOnly(event.Content(), &c), &c); err != nil {",
   "return errorf(\"create event has invalid content: %s\", err.Error())",
   "}",
   "if c.Creator == nil {",
@@ -1248,7 +1281,7 @@ def eventcontent__checkCreateEventV2 : List String := [
   "return errorf(\"create event room ID domain does not match sender: %q != %q\", event.RoomID().Domain(), sender.String())",
   "}",
   "c := struct { RoomVersion *RoomVersion `json:\"room_version\"` }{}",
-  "if err := json.Unmarshal(event.Content(), &c); err != nil {",
+  "if err := json.Unmarshal(exactMembersOnly(event.Content(), &c), &c); err != nil {",
   "return errorf(\"create event has invalid content: %s\", err.Error())",
   "}",
   "if c.RoomVersion != nil {",
@@ -1262,7 +1295,7 @@ def eventcontent__checkCreateEventV2 : List String := [
 def eventcontent__checkCreateEventV3 : List String := [
   "func func(event PDU, sender spec.UserID, knownRoomVersion KnownRoomVersionFunc) error",
   "c := struct { RoomVersion *RoomVersion `json:\"room_version\"` AdditionalCreators []string `json:\"additional_creators\"` }{}",
-  "if err := json.Unmarshal(event.Content(), &c); err != nil {",
+  "if err := json.Unmarshal(exactMembersOnly(event.Content(), &c), &c); err != nil {",
   "return errorf(\"create event has invalid content: %s\", err.Error())",
   "}",
   "if c.RoomVersion != nil {",
@@ -1304,6 +1337,7 @@ def eventcontent__isValidUserID : List String := [
 
 def eventcontent__parseIntegerPowerLevels : List String := [
   "func func(contentBytes []byte, c *PowerLevelContent) error",
+  "contentBytes = exactMembersOnly(contentBytes, c)",
   "var nulls struct { Ban notNullLevel `json:\"ban\"` Invite notNullLevel `json:\"invite\"` Kick notNullLevel `json:\"kick\"` Redact notNullLevel `json:\"redact\"` Users notNullLevels `json:\"users\"` UsersDefault notNullLevel `json:\"users_default\"` Events notNullLevels `json:\"events\"` EventsDefault notNullLevel `json:\"events_default\"` StateDefault notNullLevel `json:\"state_default\"` Notifications notNullLevels `json:\"notifications\"` }",
   "if err := json.Unmarshal(contentBytes, &nulls); err != nil {",
   "return err",
@@ -1313,6 +1347,7 @@ def eventcontent__parseIntegerPowerLevels : List String := [
 
 def eventcontent__parsePowerLevels : List String := [
   "func func(contentBytes []byte, c *PowerLevelContent) error",
+  "contentBytes = exactMembersOnly(contentBytes, c)",
   "var content struct { InviteLevel levelJSONValue `json:\"invite\"` BanLevel levelJSONValue `json:\"ban\"` KickLevel levelJSONValue `json:\"kick\"` RedactLevel levelJSONValue `json:\"redact\"` UserLevels map[string]levelJSONValue `json:\"users\"` UsersDefaultLevel levelJSONValue `json:\"users_default\"` EventLevels map[string]levelJSONValue `json:\"events\"` StateDefaultLevel levelJSONValue `json:\"state_default\"` EventDefaultLevel levelJSONValue `json:\"events_default\"` NotificationLevels map[string]levelJSONValue `json:\"notifications\"` }",
   "if err := json.Unmarshal(contentBytes, &content); err != nil {",
   "return errorf(\"unparseable power_levels event content: %s\", err.Error())",
@@ -1483,6 +1518,6 @@ def stateresolutionv2_stateResolverV2_authAndApplyEvents : List String := [
   "}"
 ]
 
-def functions : List String := ["event_builder.go:EventBuilder.AddAuthEvents", "event_builder.go:EventBuilder.Build", "event_builder.go:EventBuilder.SetContent", "event_builder.go:EventBuilder.SetUnsigned", "event_builder.go:.eventHashFromEventID", "event_builder.go:.toEventReference", "eventauth.go:AuthEvents.AddEvent", "eventauth.go:AuthEvents.Clear", "eventauth.go:AuthEvents.Create", "eventauth.go:AuthEvents.JoinRules", "eventauth.go:AuthEvents.Member", "eventauth.go:AuthEvents.PowerLevels", "eventauth.go:AuthEvents.ThirdPartyInvite", "eventauth.go:AuthEvents.Valid", "eventauth.go:NotAllowed.Error", "eventauth.go:StateNeeded.AuthEventReferences", "eventauth.go:StateNeeded.Tuples", "eventauth.go:.Allowed", "eventauth.go:.NewAuthEvents", "eventauth.go:.StateNeededForAuth", "eventauth.go:.StateNeededForProtoEvent", "eventauth.go:.accumulateStateNeeded", "eventauth.go:.allowRestrictedJoins", "eventauth.go:.checkEventLevels", "eventauth.go:.checkKnocking", "eventauth.go:.checkNotificationLevels", "eventauth.go:.checkPowerLevelEventV1", "eventauth.go:.checkPowerLevelEventV2", "eventauth.go:.checkPowerLevelEventV3", "eventauth.go:.checkUserLevels", "eventauth.go:.disallowKnocking", "eventauth.go:.disallowRestrictedJoins", "eventauth.go:.errorf", "eventauth.go:.newAllowerContext", "eventauth.go:.thirdPartyInviteToken", "eventauth.go:allowerContext.aliasEventAllowed", "eventauth.go:allowerContext.allowed", "eventauth.go:allowerContext.createEventAllowed", "eventauth.go:allowerContext.defaultEventAllowed", "eventauth.go:allowerContext.memberEventAllowed", "eventauth.go:allowerContext.newEventAllower", "eventauth.go:allowerContext.newMembershipAllower", "eventauth.go:allowerContext.powerLevelsEventAllowed", "eventauth.go:allowerContext.redactEventAllowed", "eventauth.go:allowerContext.resetCreate", "eventauth.go:allowerContext.update", "eventauth.go:allowerContext.userPowerLevel", "eventauth.go:eventAllower.commonChecks", "eventauth.go:membershipAllower.membershipAllowed", "eventauth.go:membershipAllower.membershipAllowedFromThirdPartyInvite", "eventauth.go:membershipAllower.membershipAllowedOther", "eventauth.go:membershipAllower.membershipAllowedSelf", "eventauth.go:membershipAllower.membershipAllowedSelfForRestrictedJoin", "eventauth.go:membershipAllower.membershipFailed", "eventcontent.go:CreateContent.DomainAllowed", "eventcontent.go:CreateContent.UserIDAllowed", "eventcontent.go:HistoryVisibility.Scan", "eventcontent.go:HistoryVisibility.Value", "eventcontent.go:MXIDMapping.Sign", "eventcontent.go:PowerLevelContent.Defaults", "eventcontent.go:PowerLevelContent.EventLevel", "eventcontent.go:PowerLevelContent.NotificationLevel", "eventcontent.go:PowerLevelContent.UserLevel", "eventcontent.go:.CreatorsFromCreateEvent", "eventcontent.go:.NewCreateContentFromAuthEvents", "eventcontent.go:.NewJoinRuleContentFromAuthEvents", "eventcontent.go:.NewMemberContentFromAuthEvents", "eventcontent.go:.NewMemberContentFromEvent", "eventcontent.go:.NewPowerLevelContentFromAuthEvents", "eventcontent.go:.NewPowerLevelContentFromEvent", "eventcontent.go:.NewThirdPartyInviteContentFromAuthEvents", "eventcontent.go:.checkCreateEventV1", "eventcontent.go:.checkCreateEventV2", "eventcontent.go:.checkCreateEventV3", "eventcontent.go:.domainFromID", "eventcontent.go:.isValidUserID", "eventcontent.go:.parseIntegerPowerLevels", "eventcontent.go:.parsePowerLevels", "eventcontent.go:levelJSONValue.UnmarshalJSON", "eventcontent.go:levelJSONValue.assignIfExists", "eventcontent.go:notNullLevel.UnmarshalJSON", "eventcontent.go:notNullLevels.UnmarshalJSON", "stateresolution.go:stateResolver.resolveAndAddAuthBlocks", "stateresolution.go:stateResolver.resolveAuthBlock", "stateresolutionv2.go:stateResolverV2.authAndApplyEvents"]
+def functions : List String := ["event_builder.go:EventBuilder.AddAuthEvents", "event_builder.go:EventBuilder.Build", "event_builder.go:EventBuilder.SetContent", "event_builder.go:EventBuilder.SetUnsigned", "event_builder.go:.eventHashFromEventID", "event_builder.go:.eventReferenceFromEventID", "event_builder.go:.eventReferencesFrom", "event_builder.go:.toEventReference", "eventauth.go:AuthEvents.AddEvent", "eventauth.go:AuthEvents.Clear", "eventauth.go:AuthEvents.Create", "eventauth.go:AuthEvents.JoinRules", "eventauth.go:AuthEvents.Member", "eventauth.go:AuthEvents.PowerLevels", "eventauth.go:AuthEvents.ThirdPartyInvite", "eventauth.go:AuthEvents.Valid", "eventauth.go:NotAllowed.Error", "eventauth.go:StateNeeded.AuthEventReferences", "eventauth.go:StateNeeded.Tuples", "eventauth.go:.Allowed", "eventauth.go:.NewAuthEvents", "eventauth.go:.StateNeededForAuth", "eventauth.go:.StateNeededForProtoEvent", "eventauth.go:.accumulateStateNeeded", "eventauth.go:.allowRestrictedJoins", "eventauth.go:.checkEventLevels", "eventauth.go:.checkKnocking", "eventauth.go:.checkNotificationLevels", "eventauth.go:.checkPowerLevelEventV1", "eventauth.go:.checkPowerLevelEventV2", "eventauth.go:.checkPowerLevelEventV3", "eventauth.go:.checkUserLevels", "eventauth.go:.disallowKnocking", "eventauth.go:.disallowRestrictedJoins", "eventauth.go:.errorf", "eventauth.go:.newAllowerContext", "eventauth.go:.thirdPartyInviteToken", "eventauth.go:allowerContext.aliasEventAllowed", "eventauth.go:allowerContext.allowed", "eventauth.go:allowerContext.createEventAllowed", "eventauth.go:allowerContext.defaultEventAllowed", "eventauth.go:allowerContext.memberEventAllowed", "eventauth.go:allowerContext.newEventAllower", "eventauth.go:allowerContext.newMembershipAllower", "eventauth.go:allowerContext.powerLevelsEventAllowed", "eventauth.go:allowerContext.redactEventAllowed", "eventauth.go:allowerContext.resetCreate", "eventauth.go:allowerContext.update", "eventauth.go:allowerContext.userPowerLevel", "eventauth.go:eventAllower.commonChecks", "eventauth.go:membershipAllower.membershipAllowed", "eventauth.go:membershipAllower.membershipAllowedFromThirdPartyInvite", "eventauth.go:membershipAllower.membershipAllowedOther", "eventauth.go:membershipAllower.membershipAllowedSelf", "eventauth.go:membershipAllower.membershipAllowedSelfForRestrictedJoin", "eventauth.go:membershipAllower.membershipFailed", "eventcontent.go:CreateContent.DomainAllowed", "eventcontent.go:CreateContent.UserIDAllowed", "eventcontent.go:HistoryVisibility.Scan", "eventcontent.go:HistoryVisibility.Value", "eventcontent.go:MXIDMapping.Sign", "eventcontent.go:PowerLevelContent.Defaults", "eventcontent.go:PowerLevelContent.EventLevel", "eventcontent.go:PowerLevelContent.NotificationLevel", "eventcontent.go:PowerLevelContent.UserLevel", "eventcontent.go:.CreatorsFromCreateEvent", "eventcontent.go:.NewCreateContentFromAuthEvents", "eventcontent.go:.NewJoinRuleContentFromAuthEvents", "eventcontent.go:.NewMemberContentFromAuthEvents", "eventcontent.go:.NewMemberContentFromEvent", "eventcontent.go:.NewPowerLevelContentFromAuthEvents", "eventcontent.go:.NewPowerLevelContentFromEvent", "eventcontent.go:.NewThirdPartyInviteContentFromAuthEvents", "eventcontent.go:.checkCreateEventV1", "eventcontent.go:.checkCreateEventV2", "eventcontent.go:.checkCreateEventV3", "eventcontent.go:.domainFromID", "eventcontent.go:.isValidUserID", "eventcontent.go:.parseIntegerPowerLevels", "eventcontent.go:.parsePowerLevels", "eventcontent.go:levelJSONValue.UnmarshalJSON", "eventcontent.go:levelJSONValue.assignIfExists", "eventcontent.go:notNullLevel.UnmarshalJSON", "eventcontent.go:notNullLevels.UnmarshalJSON", "stateresolution.go:stateResolver.resolveAndAddAuthBlocks", "stateresolution.go:stateResolver.resolveAuthBlock", "stateresolutionv2.go:stateResolverV2.authAndApplyEvents"]
 
 end VPins.C09
